@@ -431,6 +431,20 @@ def contexts(ctx):
     rec = [a for a in ast.walk(rc) if isinstance(a, ast.Assign) and isinstance(a.targets[0], ast.Subscript) and dotted(a.targets[0].value) == "self._cached_temp_folders" and dotted(a.targets[0].slice) == arg]
     ok = bool(fin) and bool(rec) and dotted(fin[0].args[1]) == arg and dotted(fin[0].args[0]) == dotted(rec[0].value)
     ctx.check(ok, fin[0] if fin else rc, "a new context's folder is registered for clean-up and remembered under the context id (same path)", "register_new_context does not both register the folder finalizer and remember the folder of the context")
+    # the folder is specific to THE CONTEXT BEING REGISTERED: its id (the parameter) is part of the folder name
+    if rec:
+        def flows(e, depth=0):
+            if arg in names_in(e):
+                return True
+            if depth < 4:
+                for nm in names_in(e):
+                    for a in nodes_of_type(rc, ast.Assign):
+                        if nm in stores_to(a) and flows(a.value, depth + 1):
+                            return True
+            return False
+        ctx.check(flows(rec[0].value), rec[0], "the folder name contains the id of the context being registered",
+                  "the folder remembered for context `%s` is `%s`, which does not depend on that id: two contexts registered while another one is current share one folder, and the clean-up of one "
+                  "releases the files of the other" % (arg, unparse(rec[0].value, 60)))
     for r in nodes_of_type(rc, ast.Return):
         fc = cond_facts(g.conditions_at(g.nodes_of(r)))
         ctx.check(fc == [("%s in self._cached_temp_folders" % arg, True)], r, "registration is skipped exactly for a context that already has a folder", "register_new_context returns early under %s" % fc)
